@@ -1,6 +1,6 @@
 ------------------------------- MODULE MC_C14 -------------------------------
 EXTENDS QRandom
-MCGenSeed == [g \in {"g1", "g2", "g3"} |-> IF g = "g3" THEN 7 ELSE 11]
+MCGenSeed == [g \in {"g1", "g2", "g3"} |-> IF g = "g3" THEN 0 ELSE 11]      \* 0 is a seed like any other (and falsy in the implementation language)
 QuickEPs == {"data", "exp_empis", "qst_seq"}
 AllEPs == {"data", "dataset", "empi", "empis", "mn", "exp_data", "exp_dataset", "exp_empi", "exp_empis",
            "qst_empi", "qst_empis", "qst_seq", "povmt_seq", "qpt_seq", "qmpt_seq"}
